@@ -527,8 +527,17 @@ class _Gen:
         r = self.rng
         while True:
             n = r.choice(WORDS_A) + r.choice(WORDS_B) + (str(r.randrange(2, 10)) if r.random() < 0.3 else "")
-            if n not in self.used:
+            k = r.random()
+            if k < 0.08:      # runs of capitals and capitals after digits: snake_case(name) does not round-trip to the name
+                n = r.choice(["NPC", "EIF", "ID", "HP", "TP"]) + n
+            elif k < 0.16:
+                n = n + r.choice(["ID", "2D", "HP", "3DView", "XY"])
+            elif k < 0.20:
+                n = r.choice(WORDS_A) + r.choice(["ID", "NPC", "2D"]) + r.choice(WORDS_B)
+            sn = pascal_to_snake(n)
+            if n not in self.used and ("snake:" + sn) not in self.used:
                 self.used.add(n)
+                self.used.add("snake:" + sn)
                 return n
 
     def comment(self, p=0.15):
